@@ -163,6 +163,10 @@ pub fn compare_interp_with_model(case: &ExecCase, m: &ModelRun, quirk: Option<&M
             let what = format!("interpreter returned an error ({}) where ISA semantics give {want:#x} after {} steps", e.lines().next().unwrap_or(""), m.trace.steps);
             known_i2(&what).unwrap_or_else(|| Verdict::fail(if budget { "interp:runs-away" } else { "interp:spurious-error" }, format!("{what}\n{}", describe(case))))
         }
+        // The fixed-metadata VM owns a heap buffer that is a legitimate region for the program and
+        // often sits next to the (heap-allocated) stack: an access the model places outside every
+        // region it knows may land inside that buffer, depending on the allocator. Not judged.
+        (MOut::Err(crate::model::MErr::OutOfBounds), Outcome::Ok(_)) if matches!(case.vm, VmKind::Fixed { .. }) => Verdict::Discard("fixed-vm:out-of-bounds-access-may-hit-the-internal-buffer"),
         (MOut::Err(kind), Outcome::Ok(got)) => {
             let what = format!("interpreter returned {got:#x} where the semantics give an error ({kind:?})");
             known_i2(&what).unwrap_or_else(|| Verdict::fail(format!("interp:missing-error-{kind:?}"), format!("{what}\n{}", describe(case))))
